@@ -139,8 +139,7 @@ def schemaWFField (inArray : Bool) : Schema → Bool
   | .date rules _ => !(inArray && rules.isSome)
   | .decimal rules _ => !(inArray && rules.isSome)
   | .object _ flatten _ => !(inArray && flatten)
-  -- open finding since a9e5f7d: the reader rejects arrays and maps of Any, the compiler accepts them
-  | .any _ _ _ => !inArray
+  | .any od types _ => !(inArray && (od || !types.isEmpty))
   | _ => true
 
 /-- the list rules of the (item) schema -/
